@@ -1,7 +1,7 @@
 SPECIFICATION Spec
 CONSTANTS
   Laws = {"cubic", "svk", "vol"}
-  Options = {"pointwise", "gonzalez", "quad1", "quad2", "quad3", "quad4"}
+  Options = {"pointwise", "gonzalez", "quad1", "quad2", "quad3", "quad4", "quadA"}
   Schemes = {"midpoint", "newmark", "hht"}
   U0s <- MCU0q
   U1s <- MCU1q
